@@ -1,6 +1,7 @@
 import AidlVerif.Props.LrSafe
 import AidlVerif.Props.TypeCheck
 import AidlVerif.Props.LrInv
+import AidlVerif.Props.LexerLang
 
 /-!
 # The typed invariant of a run: no `shape` / `table` stop, and failure is never silent
@@ -30,15 +31,27 @@ def prodOk (p : Production) : Bool :=
       && (!p.rhsIds.contains (T.ncols - 1) || TT.reportsOf p.action)    -- a production over `error` reports an Error
   | none => false
 
-/-- productions are well typed; terminals carry tokens, `error` the recovery record -/
+/-- the texts of a DIRECTION token -/
+def dirWords : List (List Char) := [['i', 'n'], ['o', 'u', 't'], ['i', 'n', 'o', 'u', 't']]
+
+/-- a lexer entry whose column has the refined type `dtok` only matches `in`, `out`, `inout` -/
+def dirEntryOk (i : Nat) : Bool :=
+  match LexerLang.lang T.lex[i]!.1 with
+  | some L => L.all fun w => dirWords.contains w
+  | none => false
+
+/-- productions are well typed; terminals carry tokens (a `dtok` column: tokens whose text is a
+    direction word, by the language of its lexer entries), `error` the recovery record -/
 def tablesOk : Bool :=
-  T.prods.toList.all (prodOk T TT) && T.tokToCol.all (fun e => symTy TT e.2 == .tok)
+  T.prods.toList.all (prodOk T TT)
+    && T.tokToCol.all (fun e => symTy TT e.2 == .tok || (symTy TT e.2 == .dtok && dirEntryOk T e.1))
     && symTy TT (T.ncols - 1) == .recovery
 
 structure TyFacts : Prop where
   actions : TT.actionsOk = true
   prods : ∀ (p : Nat) (prod : Production), T.prods[p]? = some prod → prodOk T TT prod = true
-  cols : ∀ (i col : Nat), T.tokToCol.lookup i = some col → symTy TT col = .tok
+  cols : ∀ (i col : Nat), T.tokToCol.lookup i = some col →
+    symTy TT col = .tok ∨ (symTy TT col = .dtok ∧ dirEntryOk T i = true)
   err : symTy TT (T.ncols - 1) = .recovery
   defs : TT.defs = T.actions
 
@@ -56,6 +69,20 @@ theorem tyFacts (ha : TT.actionsOk = true) (ht : tablesOk T TT = true) (hd : TT.
   · intro i col hl
     have := (List.all_eq_true.mp h2) (i, col) (lookup_mem'' hl)
     simpa using this
+
+/-- what the lexer guarantees about a token of column `col`: its value has the column's type -/
+def TokTy (col : Nat) (la : Token) : Prop := HasTy False (symTy TT col) (.tok la.text)
+
+def LaOk (la : Option Token) (col : Option Nat) : Prop := ∀ l c, la = some l → col = some c → TokTy TT c l
+
+theorem dirWord_text {w : List Char} (h : dirWords.contains w = true) :
+    String.ofList w = "in" ∨ String.ofList w = "out" ∨ String.ofList w = "inout" := by
+  have : w ∈ dirWords := by simpa using h
+  simp only [dirWords, List.mem_cons, List.mem_nil_iff, or_false] at this
+  rcases this with rfl | rfl | rfl
+  · exact Or.inl rfl
+  · exact Or.inr (Or.inl rfl)
+  · exact Or.inr (Or.inr rfl)
 
 def TypedSt (s : St) : Prop := ∀ x ∈ s.syms, HasTy (hasError s.diags) (symTy TT x.id) x.val
 
@@ -98,7 +125,7 @@ theorem inv2_of_keeps {s s' : St} (h : Inv2 T C TT s) (h1 : s'.states = s.states
 
 theorem nextToken_inv2 (F : TyFacts T TT) (s : St) (h : Inv2 T C TT s) :
     match nextToken T s with
-    | (s', .found _ col) => Inv2 T C TT s' ∧ symTy TT col = .tok
+    | (s', .found t col) => Inv2 T C TT s' ∧ TokTy TT col t
     | (s', .eof) => Inv2 T C TT s'
     | (s', .done o) => EndOk s' o := by
   have hk := nextToken_keeps T s
@@ -108,10 +135,23 @@ theorem nextToken_inv2 (F : TyFacts T TT) (s : St) (h : Inv2 T C TT s) :
   split
   · exact fun hi => hi
   · exact fun _ => trivial
-  · rename_i t rest _
+  · rename_i t rest heq
     dsimp only
     cases hc : T.tokToCol.lookup t.index with
-    | some col => exact fun hi => ⟨hi, F.cols _ _ hc⟩
+    | some col =>
+      refine fun hi => ⟨hi, ?_⟩
+      unfold TokTy
+      rcases F.cols _ _ hc with h1 | ⟨h1, h2⟩
+      · rw [h1]; trivial
+      · rw [h1]
+        unfold dirEntryOk at h2
+        cases hL : LexerLang.lang T.lex[t.index]!.1 with
+        | none => rw [hL] at h2; cases h2
+        | some L =>
+          rw [hL] at h2
+          obtain ⟨w, hw, htext⟩ := LexerLang.next_token_lang T.lex _ _ _ t rest heq L hL
+          rw [htext]
+          exact dirWord_text ((List.all_eq_true.mp h2) w hw)
     | none => exact fun _ => trivial
 
 theorem argsTyped_map {E : Prop} : ∀ (syms : List Sym) (ids : List Nat), syms.map (·.id) = ids →
@@ -257,14 +297,14 @@ theorem reduceOnError_inv2 (F : CertFacts T C) (G : TyFacts T TT) (la : Option T
 
 theorem findState_inv2 (G : TyFacts T TT) (error : ParseErr) (statesLen : Nat) :
     ∀ (fuel : Nat) (s : St) (la : Option Token) (col : Option Nat) (dropped : List Token),
-      Inv2 T C TT s → s.states.length = statesLen → la.isSome = col.isSome → (∀ c, col = some c → symTy TT c = .tok) →
+      Inv2 T C TT s → s.states.length = statesLen → la.isSome = col.isSome → LaOk TT la col →
       match findState T error statesLen s la col dropped fuel with
       | (s', .inl (.done o)) => EndOk s' o
       | (_, .inl _) => False
       | (s', .inr (top, la', col', _)) =>
           Inv2 T C TT s' ∧ s'.states.length = statesLen ∧ top < statesLen
           ∧ (asShift (errorAction T ((s'.states.drop (statesLen - 1 - top)).headD 0))).isSome = true
-          ∧ la'.isSome = col'.isSome ∧ (∀ c, col' = some c → symTy TT c = .tok) ∧ (la = none → la' = none) := by
+          ∧ la'.isSome = col'.isSome ∧ LaOk TT la' col' ∧ (la = none → la' = none) := by
   intro fuel
   induction fuel with
   | zero => intro s la col dropped _ _ _ _; unfold findState; trivial
@@ -291,7 +331,7 @@ theorem findState_inv2 (G : TyFacts T TT) (error : ParseErr) (statesLen : Nat) :
             intro hn hk
             dsimp only
             have := ih s' (some t) (some c) (dropped ++ [l]) hn.1 (by rw [hk.1]; exact hlen) rfl
-              (by intro c' hc'; cases hc'; exact hn.2)
+              (by intro l' c' hl' hc'; cases hl'; cases hc'; exact hn.2)
             revert this
             cases findState T error statesLen s' (some t) (some c) (dropped ++ [l]) f with
             | mk s'' r' =>
@@ -301,7 +341,7 @@ theorem findState_inv2 (G : TyFacts T TT) (error : ParseErr) (statesLen : Nat) :
           | eof =>
             intro hn hk
             dsimp only
-            have := ih s' none none (dropped ++ [l]) hn (by rw [hk.1]; exact hlen) rfl (by intro c' hc'; cases hc')
+            have := ih s' none none (dropped ++ [l]) hn (by rw [hk.1]; exact hlen) rfl (by intro l' c' hl'; cases hl')
             revert this
             cases findState T error statesLen s' none none (dropped ++ [l]) f with
             | mk s'' r' =>
@@ -314,9 +354,9 @@ theorem recoverPush_inv2 (F : CertFacts T C) (G : TyFacts T TT) (error : ParseEr
     (s : St) (top : Nat) (la : Option Token) (col : Option Nat) (dropped : List Token)
     (h : Inv2 T C TT s) (hlen : s.states.length = statesLen) (htop : top < statesLen)
     (hshift : (asShift (errorAction T ((s.states.drop (statesLen - 1 - top)).headD 0))).isSome = true)
-    (hlc : la.isSome = col.isSome) (hcol : ∀ c, col = some c → symTy TT c = .tok) :
+    (hlc : la.isSome = col.isSome) (hcol : LaOk TT la col) :
     match recoverPush T error statesLen s top la col dropped with
-    | (s', .found _ c) => Inv2 T C TT s' ∧ symTy TT c = .tok ∧ la.isSome = true
+    | (s', .found l c) => Inv2 T C TT s' ∧ TokTy TT c l ∧ la.isSome = true
     | (s', .eof) => Inv2 T C TT s' ∧ la = none
     | (s', .done o) => EndOk s' o := by
   have hsl := h.chain.length
@@ -363,7 +403,7 @@ theorem recoverPush_inv2 (F : CertFacts T C) (G : TyFacts T TT) (error : ParseEr
     cases la with
     | some l =>
       cases col with
-      | some c => exact ⟨hinv _ _ rfl rfl rfl rfl ⟨_, _, rfl⟩, hcol c rfl, rfl⟩
+      | some c => exact ⟨hinv _ _ rfl rfl rfl rfl ⟨_, _, rfl⟩, hcol l c rfl rfl, rfl⟩
       | none => simp at hlc
     | none =>
       cases col with
@@ -371,9 +411,9 @@ theorem recoverPush_inv2 (F : CertFacts T C) (G : TyFacts T TT) (error : ParseEr
       | none => exact ⟨hinv _ _ rfl rfl rfl rfl ⟨_, _, rfl⟩, rfl⟩
 
 theorem errorRecovery_inv2 (F : CertFacts T C) (G : TyFacts T TT) (s : St) (la : Option Token) (col : Option Nat)
-    (fuel : Nat) (h : Inv2 T C TT s) (hlc : la.isSome = col.isSome) (hcol : ∀ c, col = some c → symTy TT c = .tok) :
+    (fuel : Nat) (h : Inv2 T C TT s) (hlc : la.isSome = col.isSome) (hcol : LaOk TT la col) :
     match errorRecovery T env s la col fuel with
-    | (s', .found _ c) => Inv2 T C TT s' ∧ symTy TT c = .tok ∧ la.isSome = true
+    | (s', .found l c) => Inv2 T C TT s' ∧ TokTy TT c l ∧ la.isSome = true
     | (s', .eof) => Inv2 T C TT s'
     | (s', .done o) => EndOk s' o := by
   unfold errorRecovery
@@ -438,7 +478,7 @@ theorem parseEof_inv2 (F : CertFacts T C) (G : TyFacts T TT) :
         | none => exact fun hh => ih s' hh
     | none =>
       dsimp only
-      have := errorRecovery_inv2 T C TT env F G s none none f h rfl (by intro c hc; cases hc)
+      have := errorRecovery_inv2 T C TT env F G s none none f h rfl (by intro l c hl; cases hl)
       revert this
       cases errorRecovery T env s none none f with
       | mk s' r =>
@@ -448,7 +488,7 @@ theorem parseEof_inv2 (F : CertFacts T C) (G : TyFacts T TT) :
         | done o => exact fun hh => hh
 
 theorem parseInner_inv2 (F : CertFacts T C) (G : TyFacts T TT) :
-    ∀ (fuel : Nat) (s : St) (la : Token) (col : Nat), Inv2 T C TT s → symTy TT col = .tok →
+    ∀ (fuel : Nat) (s : St) (la : Token) (col : Nat), Inv2 T C TT s → TokTy TT col la →
       match parseInner T env s la col fuel with
       | (s', .inl ()) => Inv2 T C TT s'
       | (s', .inr o) => EndOk s' o := by
@@ -477,7 +517,7 @@ theorem parseInner_inv2 (F : CertFacts T C) (G : TyFacts T TT) :
       · intro y hy
         rcases List.mem_cons.mp hy with rfl | hy
         · show HasTy _ (symTy TT col) (.tok la.text)
-          rw [hcol]; trivial
+          exact HasTy.mono False.elim _ _ hcol
         · exact h.typed y hy
     | none =>
       dsimp only
@@ -500,7 +540,7 @@ theorem parseInner_inv2 (F : CertFacts T C) (G : TyFacts T TT) :
           | none => exact fun h' => ih s' la col h' hcol
       | none =>
         dsimp only
-        have := errorRecovery_inv2 T C TT env F G s (some la) (some col) f h rfl (by intro c hc; cases hc; exact hcol)
+        have := errorRecovery_inv2 T C TT env F G s (some la) (some col) f h rfl (by intro l c hl hc; cases hl; cases hc; exact hcol)
         revert this
         cases errorRecovery T env s (some la) (some col) f with
         | mk s' r =>
